@@ -7,12 +7,14 @@
 // answer that is part of the operation letter.  Reference model: map id->token,
 // default id, fallback kind, per token invoked / finalised counters.
 //
-// Case vector: [init, op, op, ...]; init = alphabet | prefill << 2 | prefix ops
+// Case vector: [init, op, op, ...]; init = alphabet | prefill << 2 | tied-flavour flag << 7 | prefix ops
 // (10 bit each, op+1) << 8.  Alphabets: 0 dispatcher/small, 1 dispatcher/large,
 // 2 reply table/small, 3 reply table/large.
 #include <cerrno>
 #include <cstdlib>
 #include <algorithm>
+#include <array>
+#include <utility>
 #include <sys/uio.h>
 #include "core.h"
 #include "array.h"
@@ -49,7 +51,9 @@ enum Kind { DSET, XSET, DCLR, CSET, CCLR, EMIT, EMSG, EMSG_EMPTY, ENULL, HASH, H
             W_RESERVE, W_REL, W_SET, W_CLEAR };
 struct Letter { Kind k; uint64_t id; int ans; int shape; std::string name; std::string sig; };
 
-static void build_letters(int alpha, std::vector<Letter> &L)
+// tied flavours (quick closure): id 0 is always registered with a NULL context, the other ids with a context pointer
+static bool flavour_ok(bool tied, uint64_t id, int f) { return !tied || (id == 0) == (f == 1); }
+static void build_letters(int alpha, bool tied, std::vector<Letter> &L)
 {
 	bool th = alpha & 1;
 	if (alpha >= 2) {
@@ -64,15 +68,17 @@ static void build_letters(int alpha, std::vector<Letter> &L)
 		L.push_back(Letter{W_CLEAR, 0, 0, 0, "command_clear", "command_clear"});
 		return;
 	}
-	std::vector<uint64_t> R, E, B;   // registerable ids, emitted ids, ids carried as first message byte
-	R.push_back(1); R.push_back(2); if (th) R.push_back(3);
+	std::vector<uint64_t> R, E, B;   // registerable ids (0 included), emitted ids, ids carried as first message byte
+	R.push_back(1); if (th) R.push_back(2); R.push_back(0);
 	R.push_back(ID_GO); if (th) R.push_back(ID_STOP);
-	E = R; E.push_back(9); if (th) E.push_back(0);
-	B.push_back(1); B.push_back(2); if (th) B.push_back(3); B.push_back(9); if (th) B.push_back(0);
-	for (uint64_t id : R) L.push_back(Letter{DSET, id, 0, 0, "dispatch_set(" + idname(id) + ",h)", "dispatch_set"});
-	if (th) for (uint64_t id : R) L.push_back(Letter{XSET, id, 0, 0, "array::set_handler(" + idname(id) + ",h)", "dispatch_set"});
+	E = R; E.push_back(9);
+	B.push_back(1); if (th) B.push_back(2); B.push_back(0); B.push_back(9);
+	// flavour: context pointer = token index (handler H) or NULL context (one trampoline function per token)
+	static const char *fl[] = { "h,ctx", "h',NULL" };
+	for (uint64_t id : R) for (int f = 0; f < 2; ++f) if (flavour_ok(tied, id, f)) L.push_back(Letter{DSET, id, 0, f, "dispatch_set(" + idname(id) + "," + fl[f] + ")", "dispatch_set"});
+	if (th) for (uint64_t id : R) for (int f = 0; f < 2; ++f) L.push_back(Letter{XSET, id, 0, f, "array::set_handler(" + idname(id) + "," + fl[f] + ")", "dispatch_set"});
 	for (uint64_t id : R) L.push_back(Letter{DCLR, id, 0, 0, "dispatch_set(" + idname(id) + ",NULL)", "dispatch_set(NULL)"});
-	for (uint64_t id : R) L.push_back(Letter{CSET, id, 0, 0, "command_set(" + idname(id) + ",h)", "command_set"});
+	for (uint64_t id : R) for (int f = 0; f < 2; ++f) if (flavour_ok(tied, id, f)) L.push_back(Letter{CSET, id, 0, f, "command_set(" + idname(id) + "," + fl[f] + ")", "command_set"});
 	for (uint64_t id : R) L.push_back(Letter{CCLR, id, 0, 0, "command_set(" + idname(id) + ",NULL)", "command_set(NULL)"});
 	for (uint64_t id : E) for (int a = 0; a < NANS; ++a) L.push_back(Letter{EMIT, id, a, 0, "emit(id " + idname(id) + ")" + ansname[a], "emit(id)"});
 	for (uint64_t id : B) for (int a = 0; a < NANS; ++a) for (int sh = 0; sh < (th ? 2 : 1); ++sh)
@@ -88,35 +94,46 @@ static void build_letters(int alpha, std::vector<Letter> &L)
 	L.push_back(Letter{HASH_BAD, 0, 0, 0, "dispatch_hash(no message)", "dispatch_hash"});
 	L.push_back(Letter{HASH_BAD, 0, 0, 1, "dispatch_hash(1-byte message)", "dispatch_hash"});
 	L.push_back(Letter{HASH_BAD, 0, 0, 2, "dispatch_hash(header without text)", "dispatch_hash"});
-	L.push_back(Letter{SETERR, 1, 0, 0, "dispatch::set_error(h)", "set_error"});
+	L.push_back(Letter{SETERR, 1, 0, 0, "dispatch::set_error(h,ctx)", "set_error"});
+	L.push_back(Letter{SETERR, 1, 0, 1, "dispatch::set_error(h',NULL)", "set_error"});
 	L.push_back(Letter{SETERR, 0, 0, 0, "dispatch::set_error(NULL)", "set_error"});
 	for (uint64_t id : R) L.push_back(Letter{SETDEF, id, 0, 0, "dispatch::set_default(" + idname(id) + ")", "set_default"});
 	L.push_back(Letter{FINI, 0, 0, 0, "dispatch_fini", "dispatch_fini"});
 	if (th) { L.push_back(Letter{XRESERVE, 1, 0, 0, "dispatch.reserve(width 1)", "command_reserve"}); L.push_back(Letter{XRESERVE, 2, 0, 0, "dispatch.reserve(width 2)", "command_reserve"}); }
 }
+// alphabet index: 0 dispatcher/small, 1 dispatcher/large, 2 reply table/small, 3 reply table/large, 4 dispatcher/small with tied flavours
 static const std::vector<Letter> &letters(int alpha)
 {
-	static std::vector<Letter> cache[4];
-	std::vector<Letter> &L = cache[alpha & 3];
-	if (L.empty()) build_letters(alpha & 3, L);
+	static std::vector<Letter> cache[5];
+	std::vector<Letter> &L = cache[alpha];
+	if (L.empty()) build_letters(alpha & 3, alpha == 4, L);
 	return L;
 }
 static uint64_t make_init(int alpha, unsigned prefill, const std::vector<int> &prefix)
 {
-	uint64_t v = (uint64_t) alpha | (uint64_t) prefill << 2;
+	uint64_t v = (uint64_t) (alpha & 3) | (uint64_t) prefill << 2 | (alpha == 4 ? 128 : 0);
 	for (size_t i = 0; i < prefix.size(); ++i) v |= (uint64_t) (prefix[i] + 1) << (8 + 10 * i);
 	return v;
 }
 
 // ---------------------------------------------------------------- harness handler
-struct Tok { uint64_t id; int kind; int inv, fin; };           // kind 0 = id handler, 1 = fallback, 2 = reply-table entry
+struct Tok { uint64_t id; int kind; int inv, fin; int tramp; };   // kind 0 = id handler, 1 = fallback, 2 = reply-table entry; tramp >= 0: "NULL context" flavour
+// A registration either carries its token index as context pointer (handler function H) or it is registered with a
+// NULL context pointer; such a token is identified by the handler FUNCTION: one trampoline per token, never reused
+// within a history.
+enum { NTRAMP = 64 };
 struct Obs { int tok; bool fin; uint64_t evid; bool hasmsg; bool used; };
 struct Exp { int tok; bool fin; };
 struct Sys;
 static Sys *g_sys;
 static uint64_t g_expanded;
 static int H(void *arg, mpt::event *ev);
+static int tramp_call(int n, void *arg, mpt::event *ev);
 typedef int (*raw_handler)(void *, void *);
+typedef int (*ev_handler)(void *, mpt::event *);
+template <int N> static int TR(void *arg, mpt::event *ev) { return tramp_call(N, arg, ev); }
+template <int... I> static std::array<ev_handler, sizeof...(I)> make_tramps(std::integer_sequence<int, I...>) { return {{ &TR<I>... }}; }
+static const std::array<ev_handler, NTRAMP> TRAMP = make_tramps(std::make_integer_sequence<int, NTRAMP>());
 
 struct ReplyCtx : public mpt::reply_context {
 	int n;
@@ -133,6 +150,7 @@ struct Sys {
 	mpt::dispatch *d;
 	RawArr wait;
 	std::vector<Tok> toks;
+	int tramp_tok[NTRAMP], next_tramp;
 	std::map<uint64_t, int> reg;   // model: id -> token (dispatcher table or reply table)
 	uint64_t def;                  // model: default id
 	int fb;                        // model: fallback: -2 built-in, -1 none, >= 0 token
@@ -146,18 +164,18 @@ struct Sys {
 	uint64_t pre_ids[16]; int pre_n; uint64_t pre_def; int pre_fb; const char *pre_tcls;
 	const char *frag_txt; size_t frag_c1, frag_c2, frag_len; int frag_clen;   // running fragmentation of a hash letter
 
-	Sys(Run &run, uint64_t init) : r(run), alpha((int) (init & 3)), sub((init & 3) >= 2), t0(run.transitions), dead(false), d(0), def(0), fb(-2), answer(A0),
+	Sys(Run &run, uint64_t init) : r(run), alpha((init & 128) ? 4 : (int) (init & 3)), sub((init & 3) >= 2), t0(run.transitions), dead(false), d(0), def(0), fb(-2), answer(A0),
 	                               had_free(false), had_growth(false), counted(false), cur(0), pre_n(0), pre_def(0), pre_fb(0), pre_tcls(""), frag_txt(0), frag_c1(0), frag_c2(0), frag_len(0), frag_clen(0)
 	{
 		static bool once = false;
 		if (!once) { once = true; mpt::mpt_log_default_skip(1); }
-		wait._buf = 0; cls[0] = 0;
+		wait._buf = 0; cls[0] = 0; next_tramp = 0;
 		g_sys = this;
 		if (!sub) d = new mpt::dispatch;
 		else {
 			fb = -1;
 			// reply table pre-filled with outstanding requests
-			unsigned prefill = (unsigned) (init >> 2) & 63;
+			unsigned prefill = (unsigned) (init >> 2) & 31;
 			for (unsigned i = 0; i < prefill; ++i) {
 				mpt::command *c = mpt::mpt_command_reserve(warr(), 2);
 				if (!c) { r.incomplete("prefill of the reply table refused"); break; }
@@ -192,8 +210,16 @@ struct Sys {
 	}
 	bool final_op() const { return r.transitions != t0 || r.replaying; }
 	mpt::unique_array<mpt::command> *warr() { return reinterpret_cast<mpt::unique_array<mpt::command> *>(&wait); }
-	static void *targ(int t) { return (void *) (uintptr_t) (t + 1); }
-	int newtok(uint64_t id, int kind) { toks.push_back(Tok{id, kind, 0, 0}); return (int) toks.size() - 1; }
+	void *targ(int t) const { return toks[t].tramp >= 0 ? 0 : (void *) (uintptr_t) (t + 1); }
+	ev_handler hfn(int t) const { return toks[t].tramp >= 0 ? TRAMP[toks[t].tramp] : H; }
+	raw_handler rfn(int t) const { return (raw_handler) hfn(t); }
+	int newtok(uint64_t id, int kind, bool nullctx = false)
+	{
+		int tr = -1;
+		if (nullctx && next_tramp < NTRAMP) { tr = next_tramp++; tramp_tok[tr] = (int) toks.size(); }
+		toks.push_back(Tok{id, kind, 0, 0, tr});
+		return (int) toks.size() - 1;
+	}
 	int nletters() const { return (int) letters(alpha).size(); }
 	int nops() { ++g_expanded; return nletters(); }
 	std::string opname(int op) { return letters(alpha)[op].name; }
@@ -238,7 +264,7 @@ struct Sys {
 		if (asan_error()) return fail("memory-error", "AddressSanitizer reported an invalid memory access");
 		for (Obs &o : obs) {
 			o.used = false;
-			if (o.tok < 0) return fail("bogus-arg", "a handler was called with an argument that was never registered");
+			if (o.tok < 0) return fail("bogus-arg", "a handler was called with a context pointer that does not belong to a registration of that handler function");
 			Tok &t = toks[o.tok];
 			if (o.fin) { if (t.fin) return fail("end-of-life-twice", tokname(o.tok) + " received a second end-of-life notification"); ++t.fin; }
 			else { if (t.fin) return fail("invoked-after-end-of-life", tokname(o.tok) + " was invoked after its end-of-life notification"); ++t.inv; }
@@ -266,7 +292,7 @@ struct Sys {
 		if (!c && it == reg.end()) return true;
 		if (!c) return fail("lookup-mismatch", "no handler found for registered id " + idname(id));
 		if (it == reg.end()) return fail("lookup-mismatch", "a handler is found for unregistered id " + idname(id));
-		if (c->cmd != (raw_handler) H || c->arg != targ(it->second)) return fail("lookup-mismatch", "id " + idname(id) + " is bound to another handler than the one registered last");
+		if (c->cmd != rfn(it->second) || c->arg != targ(it->second)) return fail("lookup-mismatch", "id " + idname(id) + " is bound to another handler than the one registered last");
 		return true;
 	}
 	bool lookup_ok()
@@ -326,13 +352,10 @@ struct Sys {
 	std::string canon();
 };
 
-static int H(void *arg, mpt::event *ev)
+static int handle(Sys *s, int tok, mpt::event *ev)
 {
-	Sys *s = g_sys;
-	if (!s) return 0;
-	uintptr_t k = (uintptr_t) arg;
 	Obs o;
-	o.tok = (k >= 1 && k <= s->toks.size()) ? (int) k - 1 : -1;
+	o.tok = tok;
 	o.fin = !ev; o.used = false;
 	o.evid = 0; o.hasmsg = false;
 	bool reply_entry = o.tok >= 0 && s->toks[o.tok].kind == 2;
@@ -346,6 +369,19 @@ static int H(void *arg, mpt::event *ev)
 	case ATERM: return F_TERM;
 	default: return -1;
 	}
+}
+static int H(void *arg, mpt::event *ev)
+{
+	Sys *s = g_sys;
+	if (!s) return 0;
+	uintptr_t k = (uintptr_t) arg;
+	return handle(s, (k >= 1 && k <= s->toks.size() && s->toks[k - 1].tramp < 0) ? (int) k - 1 : -1, ev);
+}
+static int tramp_call(int n, void *arg, mpt::event *ev)
+{
+	Sys *s = g_sys;
+	if (!s) return 0;
+	return handle(s, (n < s->next_tramp && !arg) ? s->tramp_tok[n] : -1, ev);   // a NULL-context handler must see its NULL context
 }
 
 std::string Sys::canon()
@@ -361,17 +397,19 @@ std::string Sys::canon()
 		for (size_t i = 0; i < n; ++i) {
 			s += idname(c[i].id);
 			if (!c[i].cmd) s += "/- ";
-			else { auto it = reg.find(c[i].id); s += (it != reg.end() && c[i].cmd == (raw_handler) H && c[i].arg == targ(it->second)) ? "/L " : "/L! "; }
+			else { auto it = reg.find(c[i].id); s += (it != reg.end() && c[i].cmd == rfn(it->second) && c[i].arg == targ(it->second)) ? (toks[it->second].tramp >= 0 ? "/N " : "/L ") : "/L! "; }
 		}
 		s += "]";
 	}
 	if (!sub) {
 		s += " def=" + idname(d->_def);
-		s += d->_err.cmd ? (d->_err.cmd == H ? ((fb >= 0 && d->_err.arg == targ(fb)) ? " err=T" : " err=T!") : " err=B") : " err=0";
+		if (!d->_err.cmd) s += " err=0";
+		else if (fb >= 0 && d->_err.cmd == hfn(fb) && d->_err.arg == targ(fb)) s += toks[fb].tramp >= 0 ? " err=N" : " err=T";
+		else s += fb == -2 ? " err=B" : " err=T!";
 	}
 	s += " | M{";
 	for (auto &kv : reg) { s += idname(kv.first); s += ' '; }
-	s += "} def=" + idname(def) + (fb == -2 ? " fb=B" : (fb == -1 ? " fb=0" : " fb=T"));
+	s += "} def=" + idname(def) + (fb == -2 ? " fb=B" : (fb == -1 ? " fb=0" : (toks[fb].tramp >= 0 ? " fb=N" : " fb=T")));
 	if (had_growth) s += " g";
 	if (had_free) s += " f";
 	if (dead) s += " DEAD";
@@ -399,8 +437,8 @@ bool Sys::apply_disp(const Letter &l)
 	case DSET: case XSET: {
 		bool have = reg.count(l.id);
 		setcls(have ? "registered" : "unregistered", tclass());
-		int t = newtok(l.id, 0);
-		int ret = l.k == DSET ? LIB(mpt::mpt_dispatch_set(d, l.id, H, targ(t))) : (LIB(d->set_handler(l.id, H, targ(t))) ? 0 : -1);
+		int t = newtok(l.id, 0, l.shape);
+		int ret = l.k == DSET ? LIB(mpt::mpt_dispatch_set(d, l.id, hfn(t), targ(t))) : (LIB(d->set_handler(l.id, hfn(t), targ(t))) ? 0 : -1);
 		if (!settle()) return false;
 		if (have) { if (ret >= 0) return fail("accepted-duplicate", "second registration for a used id reported success (mpt_dispatch_set documents refusal)"); cnt("path:dispatch_set refuses used id"); }
 		else if (ret < 0) cnt("spurious refusal of registration (not flagged)");
@@ -419,9 +457,9 @@ bool Sys::apply_disp(const Letter &l)
 	case CSET: {
 		bool have = reg.count(l.id);
 		setcls(have ? "registered" : "unregistered", tclass());
-		int t = newtok(l.id, 0);
+		int t = newtok(l.id, 0, l.shape);
 		if (have) exp.push_back(Exp{reg[l.id], true});
-		int ret = LIB(mpt::mpt_command_set(d, l.id, (raw_handler) H, targ(t)));
+		int ret = LIB(mpt::mpt_command_set(d, l.id, rfn(t), targ(t)));
 		if (ret < 0 && obs.empty()) { cnt("spurious refusal of registration (not flagged)"); return lookup_ok(); }
 		reg[l.id] = t;
 		if (!settle()) return false;
@@ -586,8 +624,8 @@ bool Sys::apply_disp(const Letter &l)
 	case SETERR: {
 		setcls(fb == -2 ? "builtin-fallback" : (fb == -1 ? "no-fallback" : "fallback-handler"));
 		if (fb >= 0) exp.push_back(Exp{fb, true});
-		int t = l.id ? newtok(0, 1) : -1;
-		LIB((d->set_error(l.id ? H : 0, l.id ? targ(t) : 0), 0));
+		int t = l.id ? newtok(0, 1, l.shape) : -1;
+		LIB((d->set_error(l.id ? hfn(t) : 0, l.id ? targ(t) : 0), 0));
 		if (fb >= 0) cnt("path:end-of-life of replaced fallback");
 		fb = t;
 		if (!settle()) return false;
@@ -765,7 +803,7 @@ void mc_explore(Run &r, const std::string &job)
 	std::vector<int> prefix;
 	int depth;
 	if (job.compare(0, 5, "wait:") == 0) { inits.push_back(make_init(r.tier == Quick ? 2 : 3, (unsigned) strtoul(job.c_str() + 5, 0, 10), prefix)); depth = wait_depth(r.tier, (unsigned) strtoul(job.c_str() + 5, 0, 10)); }
-	else if (job == "closure") { inits.push_back(make_init(0, 0, prefix)); depth = closure_depth(r.tier); }
+	else if (job == "closure") { inits.push_back(make_init(r.tier == Quick ? 4 : 0, 0, prefix)); depth = closure_depth(r.tier); }
 	else if (job == "large:root") { inits.push_back(make_init(1, 0, prefix)); depth = std::min(SPLIT, large_depth(r.tier)); }
 	else if (job == "large:unsplit") { inits.push_back(make_init(1, 0, prefix)); depth = large_depth(r.tier); }
 	else {
